@@ -31,6 +31,10 @@
 (*    res  "" | "ok" | "err" | "panic"   outcome when pc = "ret"           *)
 (*    val                       read result projected to ids when a read   *)
 (*                              returns, <<>> otherwise]                   *)
+(* Read results: FetchHeader <<id, height>>, ByHeight <<id>>, ChainTip     *)
+(* <<id, height>>, HeightFromHash <<height>>, Ancestors <<start>> \o ids,  *)
+(* Locator ids (tip first); NF = not found, G = bytes of no known header,  *)
+(* ERR = the call failed.                                                  *)
 (* obs.l0 = <<lb, lf>>: lengths of the two lists at the start (block ids   *)
 (* 0..lb-1, filter headers 0..lf-1); the rest of obs is the raw store      *)
 (* content and only used to measure drift.                                 *)
